@@ -383,6 +383,56 @@ def translate():
             structure['send_close_handlers'] = handler_names(n)
     if not structure['run_tries'] or not structure['feed_handlers'] or not structure['write_checks']:
         problems.append('handler structure of session.run / websocket.feed / session.write not found')
+    # ---- which State object does code run at finalisation time act on?  (C17: an abandoned generator may be
+    # finalised after a later connect() replaced self.state)
+    exit_state_reads = []
+    for fn in (ws_cls.body if ws_cls else []):
+        if not isinstance(fn, ast.FunctionDef) or not any(isinstance(n, (ast.Yield, ast.YieldFrom)) for n in ast.walk(fn)):
+            continue
+        captured = set()
+        for st in fn.body:
+            if isinstance(st, ast.Try):
+                break
+            if (isinstance(st, ast.Assign) and len(st.targets) == 1 and isinstance(st.targets[0], ast.Name)
+                    and ast.unparse(st.value) == 'self.state'):
+                captured.add(st.targets[0].id)
+        blocks = []
+        for n in ast.walk(fn):
+            if isinstance(n, ast.Try):
+                for h in n.handlers:
+                    if h.type is not None and 'GeneratorExit' in ast.unparse(h.type):
+                        blocks += h.body
+                blocks += n.finalbody
+        for n in ast.walk(ast.Module(body=blocks, type_ignores=[])):
+            if isinstance(n, ast.Call) and isinstance(n.func, ast.Attribute) and isinstance(n.func.value, ast.Name) and n.func.value.id == 'self':
+                via = 'captured' if any(isinstance(a, ast.Name) and a.id in captured for a in n.args) else 'current'
+                exit_state_reads.append((fn.name, n.func.attr, via))
+            elif isinstance(n, ast.Attribute) and isinstance(n.value, ast.Name) and n.value.id == 'self' and n.attr != 'on_disconnect' \
+                    and not any(isinstance(c, ast.Call) and c.func is n for c in ast.walk(ast.Module(body=blocks, type_ignores=[]))):
+                exit_state_reads.append((fn.name, 'self.' + n.attr, 'current'))
+    od = find_func(ws_cls, 'on_disconnect') if ws_cls else None
+    on_disconnect_param = False
+    if od is not None and [a.arg for a in od.args.args] == ['self', 'state']:
+        ok = True
+        for n in ast.walk(od):
+            tg = []
+            if isinstance(n, ast.Assign):
+                tg = n.targets
+            for t in tg:
+                if isinstance(t, ast.Attribute):
+                    base = t
+                    while isinstance(base, ast.Attribute):
+                        base = base.value
+                    ok = ok and isinstance(base, ast.Name) and base.id == 'state'
+                elif isinstance(t, ast.Name) and t.id == 'state':
+                    ok = ok and ast.unparse(n.value) == 'self.state'
+            if isinstance(n, ast.Attribute) and isinstance(n.value, ast.Name) and n.value.id == 'self' and n.attr != 'state':
+                ok = False
+        # the only read of self.state is the default under `if state is None:`
+        reads = [n for n in ast.walk(od) if isinstance(n, ast.Attribute) and ast.unparse(n) == 'self.state']
+        guarded = [n for st in od.body if isinstance(st, ast.If) and ast.unparse(st.test) == 'state is None' for n in ast.walk(st)
+                   if isinstance(n, ast.Attribute) and ast.unparse(n) == 'self.state']
+        on_disconnect_param = ok and len(reads) == len(guarded)
     facts['ast'] = dict(structure=structure, class_level=class_level,header_sep=ru[0], header_max=ru[1], proxy_sep=pru[0], proxy_max=pru[1],
                         texts=texts, state_attrs=state_attrs, ws_writes=ws_method_writes,
                         session_writes=se_writes, stream_writes=st_writes, fp_writes=fp_writes,
@@ -509,6 +559,12 @@ def sendallUnderLock : Bool := {'true' if structure['sendall_under_lock'] else '
 def sendPongHandlers : List String := [{', '.join(lean_str(h) for h in structure['send_pong_handlers'])}]
 def autoPingHandlers : List String := [{', '.join(lean_str(h) for h in structure['auto_ping_handlers'])}]
 def sendCloseHandlers : List String := [{', '.join(lean_str(h) for h in structure['send_close_handlers'])}]
+/-- code of generator methods of class WebSocket that runs when the generator is finalised (`except GeneratorExit`
+    handlers, `finally` blocks): (method, what it calls / reads on self, "captured" if it is handed the State object the
+    generator captured when it started, "current" if it goes through whatever `self.state` is at that moment) -/
+def exitStateReads : List (String × String × String) := [{', '.join('(%s, %s, %s)' % (lean_str(a), lean_str(b), lean_str(c)) for a, b, c in exit_state_reads)}]
+/-- `WebSocket.on_disconnect(self, state=None)` acts only on its `state` argument (`self.state` is read only as the default) -/
+def onDisconnectOnParam : Bool := {'true' if on_disconnect_param else 'false'}
 /-- keyword arguments `persist` forwards to `connect`: (keyword, variable) -/
 def persistConnectKw : List (String × String) := [{', '.join('(%s, %s)' % (lean_str(a), lean_str(b)) for a, b in persist_kw)}]
 
